@@ -1,6 +1,6 @@
 package main
 
-// State-leak probes for the crash-isolated workers: after EVERY call a worker repeats a fixed, cheap exchange with the
+// State-leak probes for the crash-isolated workers: after every fourth call a worker repeats a fixed, cheap exchange with the
 // library in the same process and compares the outcome with the one it saw first. A library that remembers something
 // from an earlier call (a cache keyed too coarsely, a pooled buffer returned dirty, a shared slice) changes the outcome
 // of the probe after some input; the worker then reports that input as the witness.
@@ -26,11 +26,16 @@ import (
 func probed(handler func([]byte) []byte, probe func() string) func([]byte) []byte {
 	var once sync.Once
 	first := ""
+	n := 0
 	return func(p []byte) []byte {
 		once.Do(func() { first = probe() })
 		reply := handler(p)
+		n++
+		if n%4 != 1 {
+			return reply // probing after every fourth call keeps the cost low; what leaks stays leaked until the next probe
+		}
 		if now := probe(); now != first {
-			return []byte(fmt.Sprintf("PANIC:state leaked between calls: after this input a fixed probe exchange gives %q, before it gave %q", trunc600(now), trunc600(first)))
+			return []byte(fmt.Sprintf("PANIC:state leaked between calls: after this input (or one of the three calls before it) a fixed probe exchange gives %q, before it gave %q", trunc600(now), trunc600(first)))
 		}
 		return reply
 	}
